@@ -406,7 +406,17 @@ class FakeMatch:
         self.g = groups
         self._start = start
 
-    def group(self, name):
+    def group(self, *names):
+        if len(names) > 1:
+            return tuple(self.group(n) for n in names)
+        name = names[0] if names else 0
+        if isinstance(name, int) and not isinstance(name, bool):
+            if name == 0:
+                raise symx.Unsupported('match.group(0)')
+            keys = list(self.g)
+            if not 1 <= name <= len(keys):
+                raise IndexError('no such group')
+            return self.g[keys[name - 1]]
         if name not in self.g:
             raise IndexError('no such group ' + str(name))
         return self.g[name]
@@ -420,8 +430,22 @@ class FakeMatch:
     def span(self, *a):
         raise symx.Unsupported('match.span')
 
-    def groupdict(self):
-        return dict(self.g)
+    def groupdict(self, default=None):
+        return {k: (default if v is None else v) for k, v in self.g.items()}
+
+    def groups(self, default=None):
+        return tuple(default if v is None else v for v in self.g.values())
+
+    @property
+    def lastgroup(self):
+        # the named group closed last; in the live regexes the groups of one alternative close in the order they are written
+        took = [k for k, v in self.g.items() if v is not None]
+        return took[-1] if took else None
+
+    @property
+    def lastindex(self):
+        took = [i + 1 for i, v in enumerate(self.g.values()) if v is not None]
+        return took[-1] if took else None
 
     def __getitem__(self, k):
         return self.group(k)
